@@ -761,6 +761,7 @@ def write_evidence(tier, seed, batch, wall, workers, n_viol, klines, det_info, s
         "forks_taken_with_memo_present": s["fork_with_memo"],
         "write_error_before_any_byte": sum(v for k, v in s.items() if k.startswith("wfail:before")),
         "write_error_after_prefix_stored": sum(v for k, v in s.items() if k.startswith("wfail:after")),
+        "calls_made_on_other_caller_threads": s["calls_on_other_caller_threads"],
         "write_silently_lost": sum(v for k, v in s.items() if k.startswith("wfail:lost")),
         "write_silently_short": sum(v for k, v in s.items() if k.startswith("wfail:short")),
         "read_error_on_load": sum(v for k, v in s.items() if k.startswith("wfail:read")),
